@@ -12,17 +12,20 @@ impl Case {
     pub fn fail(&mut self, prop: &str, msg: impl Into<String>) { self.oracle.push((prop.to_string(), msg.into())); }
 }
 
-pub struct Ctx { pub seed: u64, pub n: usize, pub thorough: bool, out: std::io::BufWriter<std::fs::File>, progress: Option<String>, pub count: usize }
+pub struct Ctx { pub seed: u64, pub n: usize, pub thorough: bool, out: std::io::BufWriter<std::fs::File>, progress: Option<String>, pub count: usize, beat: std::sync::Arc<std::sync::atomic::AtomicU64> }
+fn now() -> u64 { std::time::SystemTime::now().duration_since(std::time::UNIX_EPOCH).unwrap().as_secs() }
 impl Ctx {
     /// record the input about to be run, so that an abort / hang of the process can be attributed
     pub fn starting(&mut self, what: &str) {
         if let Some(p) = &self.progress { let _ = std::fs::write(p, what); }
+        self.beat.store(now(), std::sync::atomic::Ordering::Relaxed);
     }
     pub fn push(&mut self, c: Case) {
         // an empty trailing argument would vanish when the driver splits the line on spaces
         let c = if c.line.ends_with(' ') { Case { line: format!("{}-", c.line), ..c } } else { c };
         let j = serde_json::json!({"line": c.line, "impl": c.impl_out, "oracle": c.oracle, "tags": c.tags});
-        writeln!(self.out, "{}", j).unwrap(); self.count += 1;
+        writeln!(self.out, "{}", j).unwrap(); self.out.flush().unwrap(); self.count += 1;
+        self.beat.store(now(), std::sync::atomic::Ordering::Relaxed);
     }
 }
 
@@ -33,10 +36,18 @@ fn main() {
     let suite = args[2].clone(); let seed: u64 = args[3].parse().unwrap(); let n: usize = args[4].parse().unwrap();
     let thorough = args[5] == "thorough";
     let out = std::io::BufWriter::new(std::fs::File::create(&args[6]).unwrap());
-    let mut ctx = Ctx { seed, n, thorough, out, progress: args.get(7).cloned(), count: 0 };
+    let beat = std::sync::Arc::new(std::sync::atomic::AtomicU64::new(now()));
+    let mut ctx = Ctx { seed, n, thorough, out, progress: args.get(7).cloned(), count: 0, beat: beat.clone() };
     // big recursion (deep metadata) must not be mistaken for a harness problem: run on a thread with the
     // default main-thread stack size (8 MiB), like a user's `main`
     let h = std::thread::Builder::new().stack_size(8 << 20).spawn(move || { suites::run(&suite, &mut ctx); ctx.out.flush().unwrap(); ctx.count }).unwrap();
-    let count = h.join().unwrap();
+    // watchdog: the code under test may block or loop without consuming input; a case that shows no sign of life for
+    // PV_CASE_TIMEOUT seconds (default 60) is reported (exit code 3) with the input named in the progress file
+    let limit: u64 = std::env::var("PV_CASE_TIMEOUT").ok().and_then(|s| s.parse().ok()).unwrap_or(60);
+    while !h.is_finished() {
+        std::thread::sleep(std::time::Duration::from_millis(200));
+        if now().saturating_sub(beat.load(std::sync::atomic::Ordering::Relaxed)) > limit { eprintln!("HANG: no progress for {} s", limit); std::process::exit(3); }
+    }
+    let count = match h.join() { Ok(c) => c, Err(_) => { eprintln!("harness thread panicked"); std::process::exit(4); } };
     println!("cases={}", count);
 }
